@@ -369,6 +369,10 @@ cdef _parse_schema(
             named_schemas[fullname] = parsed_schema
 
             parsed_schema["name"] = fullname
+            if namespace and "." not in fullname:
+                # Null namespace inside a namespaced type: keep that explicit
+                # so that parsing the result again gives the same name
+                parsed_schema["namespace"] = ""
             parsed_schema["symbols"] = schema["symbols"]
 
         elif schema_type == "fixed":
@@ -385,10 +389,15 @@ cdef _parse_schema(
             named_schemas[fullname] = parsed_schema
 
             parsed_schema["name"] = fullname
+            if namespace and "." not in fullname:
+                # Null namespace inside a namespaced type: keep that explicit
+                # so that parsing the result again gives the same name
+                parsed_schema["namespace"] = ""
             parsed_schema["size"] = schema["size"]
 
         elif schema_type == "record" or schema_type == "error":
             # records
+            parent_namespace = namespace
             namespace, fullname = schema_name(schema, namespace)
             if fullname in names:
                 raise SchemaParseException(f"redefined named type: {fullname}")
@@ -415,6 +424,10 @@ cdef _parse_schema(
                 )
 
             parsed_schema["name"] = fullname
+            if parent_namespace and "." not in fullname:
+                # Null namespace inside a namespaced type: keep that explicit
+                # so that parsing the result again gives the same name
+                parsed_schema["namespace"] = ""
             parsed_schema["fields"] = fields
 
             # Hint that we have parsed the record
